@@ -7,6 +7,8 @@ package wsrpc
 import (
 	"context"
 	"crypto/ed25519"
+	"crypto/tls"
+	"net"
 	"fmt"
 	"os"
 	"strings"
@@ -16,6 +18,7 @@ import (
 
 	"github.com/gorilla/websocket"
 	"github.com/smartcontractkit/wsrpc/internal/message"
+	"github.com/smartcontractkit/wsrpc/internal/verifrt"
 	"github.com/smartcontractkit/wsrpc/peer"
 	"google.golang.org/grpc/connectivity"
 	"google.golang.org/protobuf/proto"
@@ -228,6 +231,70 @@ func vC09Scenario(name string, seed uint64) string {
 		}
 		rs.Close()
 		return ""
+	case "write-fails-with-message-in-hand":
+		// The read pump has read a message and is about to hand it over when the connection breaks
+		// under the write pump: the write pump leaves, the reader of that transport is stopped, a new
+		// transport takes over - and the old read pump must still end.
+		skey, ckey := vGenKey(r), vGenKey(r)
+		rs := vStartRawServer(skey, ckey.Pub)
+		cc, err := vDialLib(context.Background(), rs.Addr, ckey, skey.Pub, WithBlock())
+		if err != nil {
+			return "setup"
+		}
+		impl := &vImpl{}
+		cc.RegisterService(vDesc(), impl)
+		conn := <-rs.Conns
+		const at = "WebsocketClient.readPump#select#1"
+		verifrt.Start(nil)
+		verifrt.Hold(at, 1)
+		app, _ := proto.Marshal(vAppMsg("m", nil, ""))
+		conn.WriteMessage(websocket.BinaryMessage, vFrame(&message.Message{Exchange: &message.Message_Request{Request: &message.Request{Method: "Echo", CallId: "00000000-0000-4000-8000-000000000001", Payload: app}}}))
+		if !vWaitUntil(3*time.Second, func() bool { return verifrt.Held(at) >= 1 }) {
+			verifrt.Stop()
+			return "gate-script-infeasible/read-pump-not-held"
+		}
+		// the peer resets the connection; the client's next writes fail
+		if tc, ok := conn.UnderlyingConn().(*tls.Conn); ok {
+			if tcp, ok := tc.NetConn().(*net.TCPConn); ok {
+				tcp.SetLinger(0)
+				tcp.Close()
+			}
+		}
+		for i := 0; i < 100 && len(rs.Conns) == 0; i++ {
+			ctx, cn := context.WithTimeout(context.Background(), 20*time.Millisecond)
+			_ = cc.Invoke(ctx, "Echo", vAppMsg("w", nil, ""), &message.Response{})
+			cn()
+		}
+		var conn2 *websocket.Conn
+		select {
+		case conn2 = <-rs.Conns:
+		case <-time.After(3 * time.Second):
+			verifrt.Release(at)
+			verifrt.Stop()
+			return "gate-script-infeasible/no-reconnect"
+		}
+		_ = conn2
+		wctx, wcn := context.WithTimeout(context.Background(), 2*time.Second)
+		cc.WaitForReady(wctx)
+		wcn()
+		time.Sleep(30 * time.Millisecond) // the reader of the old transport is stopped by now
+		verifrt.Release(at)
+		verifrt.Stop()
+		time.Sleep(30 * time.Millisecond)
+		start := time.Now()
+		if !vClose(cc, 6*time.Second) {
+			return "close-hangs/" + strings.Join(vParked(), ",")
+		}
+		took := time.Since(start)
+		time.Sleep(80 * time.Millisecond)
+		if took > bound {
+			return fmt.Sprintf("close-exceeds-bound/%v", took)
+		}
+		if left := vClientLeft(); len(left) > 0 {
+			return "goroutines-left-after-close/" + strings.Join(left, ",")
+		}
+		rs.Close()
+		return ""
 	case "concurrent-close":
 		w, err := vC09Setup(r)
 		if err != nil || !w.ready() {
@@ -259,7 +326,7 @@ func vC09Scenario(name string, seed uint64) string {
 	return "unknown-scenario"
 }
 
-var vC09Names = []string{"idle-longer-than-write-timeout", "calls-in-flight", "inbound-requests-with-slow-handlers", "reconnect-in-progress", "inbound-burst", "concurrent-close", "close-right-after-dial"}
+var vC09Names = []string{"idle-longer-than-write-timeout", "calls-in-flight", "inbound-requests-with-slow-handlers", "reconnect-in-progress", "inbound-burst", "concurrent-close", "close-right-after-dial", "write-fails-with-message-in-hand"}
 
 func TestVerifC09Child(t *testing.T) {
 	spec := vChildSpec()
